@@ -77,6 +77,8 @@ structure Tm where
   hold : Option Nat
   kaSet : Bool
   ka : Option Nat
+  /-- a timer collection with no element (never in the model; its `.next()` is ready at once) -/
+  emptySlot : Bool := false
   deriving DecidableEq, Repr, Inhabited
 
 structure WStep where
@@ -87,6 +89,9 @@ structure WStep where
   stP : State
   tmA : Option Tm
   tmP : Option Tm
+  /-- what the rig reports besides (never in the model): the driver does not come to rest, a close
+      channel and its connection disagree -/
+  anomalies : List String := []
   deriving DecidableEq, Repr, Inhabited
 
 def outsFor (r : Role) (outs : List POut) : List Out :=
